@@ -180,7 +180,9 @@ pub trait FromPrimitive {} pub trait FromStr {} pub trait ToPrimitive {} pub tra
 
 // ---------- Decimal (A-DEC, A-DEC-DIV) ----------
 #[derive(Clone, Copy)]
-pub struct Decimal { pub q: Ghost<int> }
+/// q: value * 10^28.  w: the value is a division result carrying the full 28 digits (products with it are rounded, not
+/// exact).  nz: the value may be a negative zero (only trunc/floor/ceil/abs of a negative value can produce one).
+pub struct Decimal { pub q: Ghost<int>, pub w: Ghost<bool>, pub nz: Ghost<bool> }
 pub enum RoundingStrategy { MidpointAwayFromZero, MidpointNearestEven, MidpointTowardZero, ToZero, AwayFromZero, ToNegativeInfinity, ToPositiveInfinity }
 pub open spec fn strategy_code(s: RoundingStrategy) -> int {
     match s {
@@ -193,30 +195,35 @@ pub struct DecErr {}
 impl Decimal {
     #[verifier::external_body]
     pub fn from_str(s: &str) -> (r: Result<Decimal, DecErr>)
-        ensures match parse_dec(s@) { Some(q) => r is Ok && r->Ok_0.q@ == q, None => r is Err },
+        ensures match parse_dec(s@) { Some(q) => r is Ok && r->Ok_0.q@ == q && !r->Ok_0.w@ && !r->Ok_0.nz@, None => r is Err },
                 strict() && r is Ok ==> fits(r->Ok_0.q@),
     { unimplemented!() }
     #[verifier::external_body]
     pub fn checked_mul(self, o: Decimal) -> (r: Option<Decimal>)
-        ensures r is Some ==> r->0.q@ == dmul(self.q@, o.q@),
-                strict() && fits(dmul(self.q@, o.q@)) ==> r is Some,
+        // exact when neither operand is a full-precision quotient and the product is representable (A-DEC, range
+        // stated there); with a quotient operand the product is rounded (rmul)
+        ensures r is Some && !self.w@ && !o.w@ ==> r->0.q@ == dmul(self.q@, o.q@) && !r->0.w@,
+                r is Some && (self.w@ || o.w@) ==> r->0.q@ == rmul(self.q@, o.q@),
+                r is Some ==> !r->0.nz@,
+                strict() && !self.w@ && !o.w@ && fits(dmul(self.q@, o.q@)) ==> r is Some,
+                strict() && (self.w@ || o.w@) && fits(rmul(self.q@, o.q@)) ==> r is Some,
     { unimplemented!() }
     #[verifier::external_body]
     pub fn checked_sub(self, o: Decimal) -> (r: Option<Decimal>)
-        ensures r is Some ==> r->0.q@ == dsub(self.q@, o.q@),
+        ensures r is Some ==> r->0.q@ == dsub(self.q@, o.q@) && !r->0.nz@ && r->0.w@ == (self.w@ || o.w@),
                 strict() && fits(dsub(self.q@, o.q@)) ==> r is Some,
     { unimplemented!() }
     #[verifier::external_body]
     pub fn checked_div(self, o: Decimal) -> (r: Option<Decimal>)
-        ensures r is Some ==> o.q@ != 0 && r->0.q@ == ddiv(self.q@, o.q@),
+        ensures r is Some ==> o.q@ != 0 && r->0.q@ == ddiv(self.q@, o.q@) && r->0.w@ && !r->0.nz@,
                 strict() && o.q@ != 0 && fits(ddiv(self.q@, o.q@)) ==> r is Some,
     { unimplemented!() }
     #[verifier::external_body]
     pub fn fract(&self) -> (r: Decimal)
-        ensures (r.q@ == 0) == is_whole(self.q@)
+        ensures (r.q@ == 0) == is_whole(self.q@), !r.nz@
     { unimplemented!() }
     #[verifier::external_body]
-    pub fn zero() -> (r: Decimal) ensures r.q@ == 0 { unimplemented!() }
+    pub fn zero() -> (r: Decimal) ensures r.q@ == 0, !r.w@, !r.nz@ { unimplemented!() }
     #[verifier::external_body]
     pub fn is_zero(&self) -> (r: bool) ensures r == (self.q@ == 0) { unimplemented!() }
     #[verifier::external_body]
@@ -225,13 +232,14 @@ impl Decimal {
     pub fn round_dp_with_strategy(&self, dp: u32, s: RoundingStrategy) -> (r: Decimal)
         ensures (dp == 0 && s is MidpointAwayFromZero) ==> r.q@ == of_int(round_half_away(self.q@)),
                 !(dp == 0 && s is MidpointAwayFromZero) ==> r.q@ == round_other(strategy_code(s), dp as int, self.q@),
+                !r.nz@, dp == 0 ==> !r.w@,
     { unimplemented!() }
     // API not used by the pinned sources, modelled so that code which starts to use it is still decided
     #[verifier::external_body]
-    pub fn round(&self) -> (r: Decimal) ensures r.q@ == of_int(round_half_even(self.q@)) { unimplemented!() }
+    pub fn round(&self) -> (r: Decimal) ensures r.q@ == of_int(round_half_even(self.q@)), !r.nz@, !r.w@ { unimplemented!() }
     #[verifier::external_body]
     pub fn round_dp(&self, dp: u32) -> (r: Decimal)
-        ensures dp == 0 ==> r.q@ == of_int(round_half_even(self.q@)), dp != 0 ==> r.q@ == round_other(1, dp as int, self.q@)
+        ensures dp == 0 ==> r.q@ == of_int(round_half_even(self.q@)) && !r.w@, dp != 0 ==> r.q@ == round_other(1, dp as int, self.q@), !r.nz@
     { unimplemented!() }
     #[verifier::external_body]
     pub fn trunc(&self) -> (r: Decimal) ensures r.q@ == of_int(trunc_int(self.q@)) { unimplemented!() }
@@ -242,17 +250,18 @@ impl Decimal {
     #[verifier::external_body]
     pub fn abs(&self) -> (r: Decimal) ensures r.q@ == (if self.q@ >= 0 { self.q@ } else { -self.q@ }) { unimplemented!() }
     #[verifier::external_body]
-    pub fn checked_add(self, o: Decimal) -> (r: Option<Decimal>) ensures r is Some ==> r->0.q@ == self.q@ + o.q@ { unimplemented!() }
+    pub fn checked_add(self, o: Decimal) -> (r: Option<Decimal>) ensures r is Some ==> r->0.q@ == self.q@ + o.q@ && !r->0.nz@ { unimplemented!() }
     #[verifier::external_body]
     pub fn is_sign_positive(&self) -> (r: bool) ensures self.q@ > 0 ==> r, self.q@ < 0 ==> !r { unimplemented!() }
     #[verifier::external_body]
     pub fn to_u128(&self) -> (r: Option<u128>)
-        ensures self.q@ < 0 ==> r is None, self.q@ >= 0 ==> r is Some && r->0 as int == whole(self.q@),
-                r is Some ==> (r->0 as int) < LIMIT96(),     // a Decimal's integer part fits 96 bits
+        // None for negative values AND for a negative zero (sign bit set)
+        ensures self.q@ < 0 ==> r is None, self.q@ >= 0 && !self.nz@ ==> r is Some,
+                r is Some ==> self.q@ >= 0 && r->0 as int == whole(self.q@) && (r->0 as int) < LIMIT96(),
     { unimplemented!() }
     #[verifier::external_body]
     pub fn from_u128(n: u128) -> (r: Option<Decimal>)
-        ensures r is Some ==> r->0.q@ == of_int(n as int),
+        ensures r is Some ==> r->0.q@ == of_int(n as int) && !r->0.w@ && !r->0.nz@,
                 (n as int) < LIMIT96() ==> r is Some,
     { unimplemented!() }
     #[verifier::external_body]
@@ -267,7 +276,7 @@ impl Decimal {
     #[verifier::external_body]
     pub fn from_abort(x: u128) -> (r: Decimal)
         requires strict() ==> (x as int) < LIMIT96(),
-        ensures r.q@ == of_int(x as int), (x as int) < LIMIT96()
+        ensures r.q@ == of_int(x as int), (x as int) < LIMIT96(), !r.w@, !r.nz@
     { unimplemented!() }
 }
 impl PartialEqSpecImpl for Decimal {
